@@ -266,8 +266,8 @@ theorem mkRoot_faithful (cfg : Config) (fs : FS) (rn : Nat) (st st' : St) (root 
     Faithful fs st' ∧ t.name = rn ∧ TF fs t := by
   have parsed : ∀ c tf f (t : Tmpl), fs.lookup rn = some f → parseFile c tf rn f = .ok t → t.name = rn ∧ TF fs t := by
     intro c tf f t hfl hp
-    obtain ⟨hi, hn⟩ := parse_items c tf rn f t hp
-    exact ⟨hn, ⟨f, by rw [hn]; exact hfl, hi⟩⟩
+    obtain ⟨hi, hn, hcls⟩ := parse_items c tf rn f t hp
+    exact ⟨hn, ⟨f, by rw [hn]; exact hfl, hi, hcls⟩⟩
   cases root with
   | direct c s own =>
       simp only [mkRoot] at h
@@ -331,9 +331,9 @@ theorem mkRoot_faithful (cfg : Config) (fs : FS) (rn : Nat) (st st' : St) (root 
                           | error e => simp [hp] at h
                           | ok t1 =>
                               simp only [hp] at h
-                              obtain ⟨hi, hn⟩ := parse_items c tf rn f t1 hp
+                              obtain ⟨hi, hn, hcls⟩ := parse_items c tf rn f t1 hp
                               cases h
-                              refine ⟨?_, hn, ⟨f, by show fs.lookup t1.name = some f; rw [hn]; exact hfl, hi⟩⟩
+                              refine ⟨?_, hn, ⟨f, by show fs.lookup t1.name = some f; rw [hn]; exact hfl, hi, hcls⟩⟩
                               intro k t2 hk; simp [st0] at hk
 
 
